@@ -299,6 +299,9 @@ func c14Judge(c spec.Case, evs []spec.Event, d *Death) CaseResult {
 			}
 			res.Counters["brokered_connections_checked_for_tls"]++
 		}
+		if o.Hung != "" {
+			break // the operations after the hung one never ran: nothing was observed about them
+		}
 		if o.BigLen != 8<<20 {
 			viol("large-response", fmt.Sprintf("8 MiB response arrived with %d bytes", o.BigLen))
 		}
